@@ -81,7 +81,7 @@ func methodsFor(r *rand.Rand) string {
 		return "HEAD"
 	case k < 20 && r.Intn(3) == 0:
 		// a list in which a known method stands next to an unknown or empty one: the whole registration is refused
-		return pick(r, []string{"GET,BREW", "BREW,GET", "POST,", ",GET", "PUT, ,PATCH", "GET,POST,PROPFIND", "get,brew"})
+		return pick(r, []string{"GET,BREW", "BREW,GET", "POST,", ",GET", "PUT,,PATCH", "GET,POST,PROPFIND", "get,brew"})
 	default:
 		return pick(r, []string{"FOO", "", "PUT", "DELETE,PATCH"})
 	}
